@@ -46,13 +46,22 @@ Inductive sclass := SUrl | SNode | SBad | SPass | SNpm (req : N).  (* parse_load
                                                       jsr specifiers are passed through (marked external at once);
                                                       SNpm: a valid npm: specifier when an npm resolver is present *)
 
+(* what a load request carries besides the specifier: maybe_attribute_type (0 = none) and
+   maybe_source_phase_referrer (the range of the first source-phase import of the dependency) *)
+Record lattr := { la_type : N; la_sp : option N }.
+Definition no_attr : lattr := {| la_type := 0; la_sp := None |}.
+(* per declared dependency: is_asset (every import has an asset attribute or is a source-phase import)
+   and the source-phase referrer *)
+Record dflags := { dfl_asset : bool; dfl_sp : option N }.
+Definition plain_dep : dflags := {| dfl_asset := false; dfl_sp := None |}.
+
 Record wmod := {
   wm_hash_raw : N;                  (* SHA-256 of the bytes the loader serves (interned) *)
   wm_hash_text : N;                 (* SHA-256 of the decoded source text (what visit hands to the locker) *)
   wm_media : media;                 (* from specifier / content-type header *)
   wm_parse_ok : bool;               (* the analyzer (or wasm parser) accepts the source *)
   wm_kind : mkind;                  (* MkJs or MkWasm when accepted as code *)
-  wm_deps : list (dep * bool);      (* declared dependencies, each with its is_asset flag *)
+  wm_deps : list (dep * dflags);    (* declared dependencies, each with its is_asset flag and source-phase referrer *)
   wm_tdep : option typesdep
 }.
 
@@ -100,15 +109,15 @@ Record pitem := {
   pi_spec : spec;                (* requested = load specifier in this stage *)
   pi_range : option N;
   pi_count : nat;
-  pi_attr : N;
+  pi_attr : lattr;
   pi_checksum : option N;        (* lockfile checksum of the requested specifier, read at queue time *)
   pi_asset : bool;
   pi_dyn : bool;
   pi_root : bool
 }.
 
-Record branch := { br_range : N; br_attr : N; br_asset : bool }.
-Record deferred := { df_range : option N; df_attr : N; df_dyn : bool; df_root : bool }.
+Record branch := { br_range : N; br_attr : lattr; br_asset : bool }.
+Record deferred := { df_range : option N; df_attr : lattr; df_dyn : bool; df_root : bool }.
 
 (* one loader call: specifier, as asset (ensure_cached), with CacheSetting::Reload, presented checksum *)
 Record lcall := { lc_spec : spec; lc_asset : bool; lc_reload : bool; lc_checksum : option N }.
@@ -224,7 +233,7 @@ Definition lock_get (st : bstate) (s : spec) : option N :=
 
 (* load_pending_module: the pending slot, the lockfile checksum of the requested specifier, the queued load *)
 Definition queue_load (st : bstate) (s : spec) (range : option N) (asset in_dyn root : bool)
-           (attr : N) (count : nat) : bstate :=
+           (attr : lattr) (count : nat) : bstate :=
   (set_slot st s (BPending asset))
     <| st_pending := st_pending st ++
          [{| pi_spec := s; pi_range := range; pi_count := count; pi_attr := attr;
@@ -241,16 +250,23 @@ Definition load_target (st : bstate) (spec0 : spec) : spec :=
   resolve (redirect_graph (st_redirects st)) spec0.
 
 (* load_with_redirect_count *)
+(* an asset load requested (also) by a source-phase import: only WebAssembly - judged by the specifier's
+   extension - without a type attribute may be imported that way *)
+Definition sp_reject (W : world) (s : spec) (asset : bool) (attr : lattr) : bool :=
+  asset && (match la_sp attr with Some _ => true | None => false end)
+  && negb (mem s (w_wasm_ext W) && N.eqb (la_type attr) 0).
+(* an asset load with a type attribute the options do not allow *)
+Definition attr_reject (o : bopts) (asset : bool) (attr : lattr) : bool :=
+  asset && negb (N.eqb (la_type attr) 0) && negb (attr_allowed o (la_type attr)).
+
 Definition load (W : world) (o : bopts) (st : bstate) (spec0 : spec) (range : option N)
-           (asset in_dyn root : bool) (attr : N) (count : nat) : bstate :=
+           (asset in_dyn root : bool) (attr : lattr) (count : nat) : bstate :=
   let s := load_target st spec0 in
-  (* attr 9: no type attribute, every import of the target is a source-phase import (an asset load):
-     only WebAssembly - judged by the specifier's extension - may be imported that way *)
-  if asset && N.eqb attr 9 && negb (mem s (w_wasm_ext W)) then
-    set_slot st s (BErr (BSourcePhase s (match range with Some r => r | None => 0 end)))
+  if sp_reject W s asset attr then
+    set_slot st s (BErr (BSourcePhase s (match la_sp attr with Some r => r | None => 0 end)))
   else
-  if asset && negb (N.eqb attr 0) && negb (N.eqb attr 9) && negb (attr_allowed o attr) then
-    set_slot st s (BErr (BUnsupportedAttr s (match range with Some r => r | None => 0 end) attr))
+  if attr_reject o asset attr then
+    set_slot st s (BErr (BUnsupportedAttr s (match range with Some r => r | None => 0 end) (la_type attr)))
   else
     let proceed :=
       match class_of W s with
@@ -284,10 +300,16 @@ Definition is_code_media (m : media) : bool :=
   | _ => false
   end.
 
-Definition accept (W : world) (final : spec) (wm : wmod) (attr : N) (range : option N)
+Definition accept (W : world) (final : spec) (wm : wmod) (lattr0 : lattr) (range : option N)
            (root dyn : bool) : accepted :=
+  let attr := la_type lattr0 in
   let media := match wm_media wm with MUnknown => if root then MJavaScript else MUnknown | m => m end in
   let rng := match range with Some r => r | None => 0 end in
+  let sp_bad := match la_sp lattr0 with
+                | Some _ => negb ((match media with MWasm => true | _ => false end) && N.eqb attr 0)
+                | None => false end in
+  if sp_bad then AccErr (BSourcePhase final (match la_sp lattr0 with Some r => r | None => 0 end))
+  else
   if negb (N.eqb attr 0) && negb (N.eqb attr 1) && negb (N.eqb attr 2) && negb (N.eqb attr 3)
   then AccErr (BUnsupportedAttr final rng attr)
   else
@@ -369,9 +391,14 @@ Definition with_dyn (st : bstate) (d : list (spec * branch)) : bstate := st <| s
 
 Definition is_rnone (r : res) : bool := match r with RNone => true | _ => false end.
 
-Definition visit_dep (W : world) (o : bopts) (st : bstate) (da : dep * bool) : bstate * dep :=
+Definition dep_lattr (d : dep) (fl : dflags) : lattr :=
+  (* in the wire format 9 stands for "no type attribute, every import is a source-phase import" *)
+  {| la_type := if N.eqb (d_attr d) 9 then 0 else d_attr d; la_sp := dfl_sp fl |}.
+
+Definition visit_dep (W : world) (o : bopts) (st : bstate) (da : dep * dflags) : bstate * dep :=
   let d := fst da in
-  let asset := snd da in
+  let asset := dfl_asset (snd da) in
+  let attr := dep_lattr d (snd da) in
   if d_dyn d && bo_skip_dynamic o then (st, d)
   else
     let code_side := include_code (bo_kind o) || is_rnone (d_type d) in
@@ -383,10 +410,10 @@ Definition visit_dep (W : world) (o : bopts) (st : bstate) (da : dep * bool) : b
               (* entry(t).or_insert(..); then value.is_asset = false when this import is not an asset *)
               let cur := match lookup t (st_dyn st) with
                          | Some b => b
-                         | None => {| br_range := range; br_attr := d_attr d; br_asset := asset |} end in
+                         | None => {| br_range := range; br_attr := attr; br_asset := asset |} end in
               let cur' := if asset then cur else {| br_range := br_range cur; br_attr := br_attr cur; br_asset := false |} in
               with_dyn st (set_assoc t cur' (st_dyn st))
-            else load W o st t (Some range) asset (st_in_dyn st) (mem t (st_resolved_roots st)) (d_attr d) 0
+            else load W o st t (Some range) asset (st_in_dyn st) (mem t (st_resolved_roots st)) attr 0
         | _ => st
         end
       else st in
@@ -396,8 +423,8 @@ Definition visit_dep (W : world) (o : bopts) (st : bstate) (da : dep * bool) : b
         match d_type d with
         | ROk t range =>
             if d_dyn d && negb (st_in_dyn st1) then
-              with_dyn st1 (set_assoc t {| br_range := range; br_attr := d_attr d; br_asset := asset |} (st_dyn st1))
-            else load W o st1 t (Some range) asset (st_in_dyn st1) (mem t (st_resolved_roots st1)) (d_attr d) 0
+              with_dyn st1 (set_assoc t {| br_range := range; br_attr := attr; br_asset := asset |} (st_dyn st1))
+            else load W o st1 t (Some range) asset (st_in_dyn st1) (mem t (st_resolved_roots st1)) attr 0
         | _ => st1
         end
       else st1 in
@@ -405,7 +432,7 @@ Definition visit_dep (W : world) (o : bopts) (st : bstate) (da : dep * bool) : b
     (st2, {| d_text := d_text d; d_filelike := d_filelike d; d_code := code'; d_type := type';
              d_dyn := d_dyn d; d_deno_types := d_deno_types d; d_attr := d_attr d |}).
 
-Fixpoint visit_deps (W : world) (o : bopts) (st : bstate) (ds : list (dep * bool)) : bstate * list dep :=
+Fixpoint visit_deps (W : world) (o : bopts) (st : bstate) (ds : list (dep * dflags)) : bstate * list dep :=
   match ds with
   | [] => (st, [])
   | da :: ds' =>
@@ -425,7 +452,7 @@ Definition load_types_dep (W : world) (o : bopts) (st : bstate) (tdep : option t
   if include_types (bo_kind o) then
     match tdep with
     | Some td => match td_res td with
-                 | ROk t range => load W o st t (Some range) false false (mem t (st_resolved_roots st)) 0 0
+                 | ROk t range => load W o st t (Some range) false false (mem t (st_resolved_roots st)) no_attr 0
                  | _ => st end
     | None => st
     end
@@ -610,7 +637,7 @@ Definition empty_bgraph (k : gkind) : bgraph :=
 Fixpoint load_roots (W : world) (o : bopts) (st : bstate) (roots : list spec) : bstate :=
   match roots with
   | [] => st
-  | r :: rs => load_roots W o (load W o st r None false (bo_is_dynamic o) true 0 0) rs
+  | r :: rs => load_roots W o (load W o st r None false (bo_is_dynamic o) true no_attr 0) rs
   end.
 
 Fixpoint load_import_deps (W : world) (o : bopts) (st : bstate) (ds : list dep) : bstate :=
@@ -618,7 +645,7 @@ Fixpoint load_import_deps (W : world) (o : bopts) (st : bstate) (ds : list dep) 
   | [] => st
   | d :: ds' =>
       let st1 := match d_type d with
-                 | ROk t range => load W o st t (Some range) false (st_in_dyn st) (mem t (st_resolved_roots st)) 0 0
+                 | ROk t range => load W o st t (Some range) false (st_in_dyn st) (mem t (st_resolved_roots st)) no_attr 0
                  | _ => st end in
       load_import_deps W o st1 ds'
   end.
@@ -663,7 +690,7 @@ Fixpoint reload_specs (W : world) (o : bopts) (st : bstate) (specs : list spec) 
   | [] => st
   | s :: rest =>
       let st1 := st <| st_slots := remove_assoc s (st_slots st) |> in
-      reload_specs W o (load W o st1 s None false (bo_is_dynamic o) true 0 0) rest
+      reload_specs W o (load W o st1 s None false (bo_is_dynamic o) true no_attr 0) rest
   end.
 
 Definition reload (W : world) (o : bopts) (g : bgraph) (specs : list spec) : option bgraph :=
